@@ -186,6 +186,11 @@ class Worker(threading.Thread):
             if rc == 2:
                 incon.append(p)
         res = dict(m, result="survived", inconclusive=incon, secs=round(time.time() - t0))
+        shutil.rmtree(bdir, ignore_errors=True)
+        rc, diff = sh(["git", "diff"], wt)
+        pdir = os.path.join(self.args.out, "patches"); os.makedirs(pdir, exist_ok=True)
+        res["patch"] = os.path.join(pdir, "%s_%d_%s.diff" % (m["file"], m["line"], hashlib.sha1(m["new"].encode()).hexdigest()[:6]))
+        open(res["patch"], "w").write(diff)
         if self.args.suite:
             rc, out = sh(["go", "test", "-vet=off", "-count=1", "-timeout", "25m", "./..."], wt, timeout=1700)
             res["suite"] = "pass" if rc == 0 else "fail"
